@@ -3,14 +3,14 @@ import os
 import numpy as np
 from hypothesis import strategies as st
 
-from .. import codec, conv, gen, sgy, spec
+from .. import codec, conv, gen, sgy, sources, spec
 from ..core import Violation
 
 META = {
     "level": "exploration",
-    "rule": ("cases = (route in numpy/segy/segy-reduced-iops/cli/zgy/vds) x one of the 344 valid (rate, blockshape) "
+    "rule": ("cases = (route in numpy/segy/segy-reduced-iops/cli/generated zgy by API and CLI/zgy+vds fixtures) x one of the 344 valid (rate, blockshape) "
              "settings in one of 20 spellings x cube shape built per axis as k*blockdim+r (classes <,=,>,multi-block) x "
-             "value kind x drawn PRNG seed x SEG-Y format IBM/IEEE x 0-2 extended text headers x queue capacity; "
+             "value kind x drawn PRNG seed x SEG-Y format IBM/IEEE x 0-2 extended text headers x queue capacity x (one case in five) a converter object that has already written another file under another setting; "
              "non-trivial = some dimension not a multiple of 4, or >1 block on an axis, or non-default route/setting; "
              "distinct = signature (route, rate, blockshape, per-axis size class and residue mod 4, format, ext headers)"),
     "assumptions": [
@@ -18,7 +18,7 @@ META = {
         "segyio is trusted for what a SEG-Y source contains (IBM sources: segyio's float32 view is the source)",
         "the library version is supplied as 0.2.8 through a shadow dist-info (the sandbox install reports an unparseable no-tag version)",
         "cells lying wholly in blockshape padding beyond the 4-aligned extent are not pinned by the statement and are not compared",
-        "VDS route: fixture test_data/vds only (no VDS author offline); ZGY route: thorough tier only",
+        "VDS route: fixture test_data/vds only (no VDS author offline); ZGY route: generated files written with pyzgy's writer (value kinds with a non-degenerate range, which openzgy's histogram needs) plus the fixtures",
     ],
 }
 
@@ -100,8 +100,13 @@ def run_case(case, ctx):
     bpv, bsarg = gen.spelled_args(setting)
     out = os.path.join(d, "out.sgz")
     route = case["check"]
+    earlier = []
+    if case.get("pre"):
+        # the converter object writes another file first (different setting); both must be faithful
+        pb, ps = gen.spelled_args(case["pre"])
+        earlier = [(os.path.join(d, "pre.sgz"), pb, ps)]
     if route == "numpy":
-        conv.numpy_convert(data, out, bpv, bsarg)
+        conv.numpy_convert(data, out, bpv, bsarg, earlier=earlier)
         src = data
     elif route in ("segy", "cli"):
         path = build_segy(case, d, data)
@@ -111,13 +116,25 @@ def run_case(case, ctx):
             raise RuntimeError(f"harness: segyio cube {src.shape} != {shape}")
         if route == "segy":
             conv.segy_convert(path, out, bpv, bsarg, reduce_iops=(case["reader"] == "reduced"),
-                              header_detection=case.get("mode", "heuristic"), queue=case.get("queue"))
+                              header_detection=case.get("mode", "heuristic"), queue=case.get("queue"), earlier=earlier)
         else:
             args = ["sgy2sgz", path, out, "--bits-per-voxel", bpv, "--blockshape", *bsarg,
                     "--reduce-iops", "True" if case["reader"] == "reduced" else "False"]
             code, exc = conv.cli_invoke(args)
             if code != 0:
                 raise Violation("cli-failed", f"exit {code}: {exc!r}")
+    elif route == "zgy":
+        path = os.path.join(d, "in.zgy")
+        z = sources.write_zgy(path, data, case["il"], case["xl"], case["delay"], case["dt_us"] / 1000.0)
+        src = z["cube"]
+        if not codec.bits_equal(src, data):
+            raise RuntimeError("harness: pyzgy reads other samples than written")
+        if case.get("cli"):
+            code, exc = conv.cli_invoke(["zgy2sgz", path, out, "--bits-per-voxel", bpv])
+            if code != 0:
+                raise Violation("cli-failed", f"zgy2sgz exit {code}: {exc!r}")
+        else:
+            conv.segy_convert(path, out, bpv, bsarg, cls="ZgyConverter")
     elif route == "fixture":
         import warnings
         path = os.path.join(conv.env.REPO, "test_data", case["fixture"])
@@ -138,16 +155,21 @@ def run_case(case, ctx):
     else:
         raise RuntimeError(route)
     check_output(out, src, rate, bs)
+    if earlier and route in ("numpy", "segy"):
+        check_output(earlier[0][0], src, case["pre"]["rate"], tuple(case["pre"]["blockshape"]))
     return {"sig": signature(case) if nontrivial(case) else None,
             "labels": [route, f"rate={rate}", "multiblock" if any(n > b for n, b in zip(shape, bs)) else "singleblock",
-                       "unaligned" if any(n % 4 for n in shape) else "aligned"]}
+                       "unaligned" if any(n % 4 for n in shape) else "aligned"] + (["reused-converter"] if earlier else [])}
 
 
 @st.composite
 def numpy_cases(draw, settings=None):
     setting = draw(gen.setting_spelled(settings))
     shape = draw(gen.shape3d(setting["blockshape"], max_voxels=500_000))
-    return {"setting": setting, "shape": list(shape), "values": draw(gen.values_spec)}
+    c = {"setting": setting, "shape": list(shape), "values": draw(gen.values_spec)}
+    if draw(st.integers(0, 4)) == 0:
+        c["pre"] = draw(gen.setting_spelled())
+    return c
 
 
 @st.composite
@@ -156,7 +178,8 @@ def segy_cases(draw, settings=None):
     shape = draw(gen.shape3d(setting["blockshape"], max_voxels=200_000, max_traces=1500))
     il = draw(gen.line_axis(shape[0]))
     xl = draw(gen.line_axis(shape[1]))
-    return {"setting": setting, "shape": list(shape), "values": draw(gen.values_spec),
+    pre = draw(gen.setting_spelled()) if draw(st.integers(0, 4)) == 0 else None
+    return {"setting": setting, "shape": list(shape), "values": draw(gen.values_spec), **({"pre": pre} if pre else {}),
             "fmt": draw(st.sampled_from([1, 5])), "ext": draw(st.sampled_from([0, 0, 1, 2])),
             "queue": draw(st.sampled_from([1, 2, 16])), "reader": draw(st.sampled_from(["segyio", "reduced"])),
             "il": list(il), "xl": list(xl), "mode": draw(st.sampled_from(["heuristic", "thorough", "exhaustive", "strip"])),
@@ -176,6 +199,23 @@ def cli_cases(draw):
     return {"setting": setting, "shape": list(shape), "values": draw(gen.values_spec),
             "fmt": draw(st.sampled_from([1, 5])), "ext": 0, "reader": draw(st.sampled_from(["segyio", "reduced"])),
             "il": [1, 1], "xl": [1, 1]}
+
+
+@st.composite
+def zgy_cases(draw):
+    """Generated ZGY sources (pyzgy's writer).  The CLI form takes a bit rate only (default blockshape)."""
+    cli = draw(st.sampled_from([False, False, True]))
+    if cli:
+        s = draw(st.sampled_from([t for t in gen.SETTINGS_3D if tuple(t[1][:2]) == (4, 4)]))
+        setting = {"rate": s[0], "blockshape": list(s[1]), "free": "none", "rate_as": "neg"}
+    else:
+        setting = draw(gen.setting_spelled())
+    shape = draw(gen.shape3d(setting["blockshape"], max_voxels=150_000, max_traces=800))
+    ax = lambda: [draw(st.one_of(st.integers(-50, 5000), st.integers(-10 ** 6, 10 ** 6))),
+                  draw(st.sampled_from([1, 1, -1, 2, -3, 5, 100]))]
+    return {"setting": setting, "shape": list(shape), "cli": cli, "il": ax(), "xl": ax(),
+            "values": {"kind": draw(st.sampled_from(["smooth", "gauss", "steps"])), "vseed": draw(st.integers(0, 2 ** 32 - 1))},
+            "dt_us": draw(st.sampled_from([4000, 2000, 1000, 500, 2500])), "delay": draw(st.sampled_from([0, 0, 100, -20]))}
 
 
 FIXTURES = ["zgy/small-32bit.zgy", "zgy/small-16bit.zgy", "zgy/small-8bit.zgy", "zgy/small-float-samplerate.zgy", "vds/small.vds"]
@@ -201,6 +241,8 @@ def shard_main(ctx):
     if not ctx.explore("segy", segy_cases(), run_case, ctx.n(100, 600)):
         return
     if not ctx.explore("cli", cli_cases(), run_case, ctx.n(20, 100)):
+        return
+    if not ctx.explore("zgy", zgy_cases(), run_case, ctx.n(30, 300)):
         return
     ctx.explore("fixture", fixture_cases(), run_case, ctx.n(12, 80))
 
